@@ -44,6 +44,7 @@ class MindsDBParser(Parser):
         ('right', UNOT),
         ('left', EQUALS, NEQUALS),
         ('nonassoc', LESS, LEQ, GREATER, GEQ, IN, NOT_IN, BETWEEN, IS, IS_NOT, NOT_LIKE, LIKE),
+        ('left', CONCAT),
         ('left', JSON_GET),
         ('left', PLUS, MINUS),
         ('left', STAR, DIVIDE, TYPECAST, MODULO),
